@@ -48,6 +48,9 @@ FAMILIES = {
     "names-var2": dict(n_axes=2, layout="onaxis", n_glyphs=4, composites=0.0, mapped=0.3, post=lambda m, r: M.naming(m, r)),
     "names-var1-collide": dict(n_axes=1, layout="onaxis", n_glyphs=4, composites=0.0, mapped=0.0, post=lambda m, r: M.naming(m, r, collide=0.95, fea=0.8)),
     "names-twin": dict(n_axes=1, layout="onaxis", n_glyphs=3, composites=0.0, mapped=0.0, post=lambda m, r: M.naming(m, r, collide=0.5, fea=0.2, twin=True)),
+    "bnd-static": dict(n_axes=0, n_glyphs=8, composites=0.4, transforms="scale", vertical=True, post=lambda m, r: M.boundary(m, r)),
+    "bnd-var1": dict(n_axes=1, layout="onaxis", n_glyphs=8, composites=0.4, post=lambda m, r: M.boundary(m, r)),
+    "bnd-var2": dict(n_axes=2, layout="onaxis", n_glyphs=6, composites=0.4, nested=True, post=lambda m, r: M.boundary(m, r)),
     "marks-static": dict(n_axes=0, n_glyphs=8, composites=0.0, marks=dict(n_groups=2)),
     "marks-var1": dict(n_axes=1, layout="onaxis", n_glyphs=8, composites=0.0, marks=dict(n_groups=3, n_marks=4)),
     "marks-var2": dict(n_axes=2, layout="corners", n_glyphs=8, composites=0.0, marks=dict(n_groups=2, n_ligs=2, mkmk=0.9)),
@@ -68,6 +71,7 @@ BY_PROPERTY = {
     "C09": ["kern-static", "kern-var1", "kern-divergent", "kern-many", "kern-intermediate", "kern-nogroups", "kern-exceptions", "kern-3x3"],
     "C10": ["marks-static", "marks-var1", "marks-var2", "marks-intermediate", "marks-multi"],
     "C18": ["names-var1", "names-var2", "names-static", "names-var1-collide", "names-twin", "names-var1-collide"],
+    "C19": ["bnd-static", "bnd-var1", "bnd-var2", "bnd-static"],
     "C14": ["var1-noorder", "var2-mixed-sparse", "var1-mixedglyphs", "kern-var1", "kern-intermediate", "kern-divergent"],
 }
 
